@@ -219,54 +219,69 @@ func (kgdb *KVInterfaceGDB) BulkAdd(stream <-chan *gdbi.GraphElement) error {
 	var bulkErr *multierror.Error
 	// The stream is written in chunks. An element that replaces an element of the
 	// same chunk starts a new chunk, so that the version it replaces is stored and its
-	// keys and index entries can be removed first.
+	// keys and index entries can be removed first. The stored versions are removed
+	// before the bulk write of the chunk is opened: not every key-value driver allows
+	// an update while a bulk write is open (bolt and level block forever).
 	var pending *gdbi.GraphElement
 	for done := false; !done; {
 		seen := map[string]struct{}{}
+		chunk := []*gdbi.GraphElement{}
+		for len(chunk) < bulkChunkSize {
+			elem := pending
+			pending = nil
+			if elem == nil {
+				var ok bool
+				if elem, ok = <-stream; !ok {
+					done = true
+					break
+				}
+			}
+			var key string
+			if elem.Vertex != nil {
+				key = "v" + elem.Vertex.ID
+			} else if elem.Edge != nil {
+				key = "e" + elem.Edge.ID
+			} else {
+				continue
+			}
+			if _, ok := seen[key]; ok {
+				pending = elem
+				break
+			}
+			seen[key] = struct{}{}
+			chunk = append(chunk, elem)
+		}
+
+		write := chunk[:0]
+		for _, elem := range chunk {
+			var err error
+			if elem.Vertex != nil {
+				if elem.Vertex.Validate() == nil {
+					err = kgdb.removeStoredVertex(elem.Vertex.ID)
+				}
+			} else if elem.Edge.ToEdge().Validate() == nil {
+				err = kgdb.replaceEdge(elem.Edge)
+			}
+			if err != nil {
+				bulkErr = multierror.Append(bulkErr, err)
+				continue
+			}
+			write = append(write, elem)
+		}
+		if len(write) == 0 {
+			continue
+		}
+
 		err := kgdb.kvg.kv.BulkWrite(func(tx kvi.KVBulkWrite) error {
-			for len(seen) < bulkChunkSize {
-				elem := pending
-				pending = nil
-				if elem == nil {
-					var ok bool
-					if elem, ok = <-stream; !ok {
-						done = true
-						return nil
-					}
-				}
+			for _, elem := range write {
+				var err error
 				if elem.Vertex != nil {
-					if _, ok := seen["v"+elem.Vertex.ID]; ok {
-						pending = elem
-						return nil
-					}
-					seen["v"+elem.Vertex.ID] = struct{}{}
-					if elem.Vertex.Validate() == nil {
-						if err := kgdb.removeStoredVertex(elem.Vertex.ID); err != nil {
-							bulkErr = multierror.Append(bulkErr, err)
-							continue
-						}
-					}
-					if err := insertVertex(tx, kgdb.kvg.idx, kgdb.graph, elem.Vertex.ToVertex()); err != nil {
-						bulkErr = multierror.Append(bulkErr, err)
-					}
-					continue
+					err = insertVertex(tx, kgdb.kvg.idx, kgdb.graph, elem.Vertex.ToVertex())
+				} else {
+					err = insertEdge(tx, kgdb.kvg.idx, kgdb.graph, elem.Edge.ToEdge())
 				}
-				if elem.Edge != nil {
-					if _, ok := seen["e"+elem.Edge.ID]; ok {
-						pending = elem
-						return nil
-					}
-					seen["e"+elem.Edge.ID] = struct{}{}
-					if elem.Edge.ToEdge().Validate() == nil {
-						if err := kgdb.replaceEdge(elem.Edge); err != nil {
-							bulkErr = multierror.Append(bulkErr, err)
-							continue
-						}
-					}
-					if err := insertEdge(tx, kgdb.kvg.idx, kgdb.graph, elem.Edge.ToEdge()); err != nil {
-						bulkErr = multierror.Append(bulkErr, err)
-					}
-					continue
+				if err != nil {
+					bulkErr = multierror.Append(bulkErr, err)
 				}
 			}
 			return nil
